@@ -53,6 +53,10 @@ func ruleWhoMutatesBucket(c *Check, rule string) {
 	sto := invokeSites(c.P, "simpleblob.Interface", "Store")
 	nd, ns, bad := 0, 0, 0
 	var cli []string
+	// a new helper (a function that did not exist when the rules were confirmed)
+	// counts as part of the known function(s) it is called from
+	del = attributeToOwners(c.P, del)
+	sto = attributeToOwners(c.P, sto)
 	for fn, ins := range del {
 		switch {
 		case fn == fnCleanerRun:
@@ -426,7 +430,7 @@ func ruleReceiveOnlyCleaner(c *Check, rule string) {
 	name := "syncer.New"
 	fn, paths := c.walkFn(rule, name, WalkConfig{Memo: true,
 		KeepEvent: func(e *Event) bool {
-			return e.Kind == "ret" || e.Kind == "call" && strings.Contains(e.Callee, "cleaner.New") || e.Kind == "store" && strings.Contains(e.Addr, "cleanupConf")
+			return e.Kind == "ret" || e.Kind == "call" && strings.Contains(e.Callee, "cleaner.New") || e.Kind == "store" && strings.Contains(e.Addr, ".Enabled")
 		},
 		KeepAtom: func(a Atom) bool { return strings.Contains(a.String(), "ReceiveOnly") }})
 	if paths == nil {
@@ -446,7 +450,7 @@ func ruleReceiveOnlyCleaner(c *Check, rule string) {
 			}
 			if ro {
 				en, _ := litField(conf, "Enabled")
-				if !(conf == "{Enabled: const:false}" || en == "const:false" && !strings.Contains(conf, "param:c")) {
+				if !(conf == "{Enabled: const:false}" || en == "const:false" && !strings.Contains(conf, "param:")) {
 					bad++
 					c.Bad(rule, name+"/cleaner-disabled-receive-only", "in receive-only mode the cleaner is constructed with "+conf+" instead of a disabled configuration: a receive-only instance could delete snapshots", evPos(c, cn), describe(c, p))
 				}
@@ -473,4 +477,42 @@ func ruleReceiveOnlyCleaner(c *Check, rule string) {
 		}
 		c.Expect(okr, rule, rn+"/disabled", "a disabled cleaner's Run only waits for cancellation", "a disabled cleaner's Run does more than wait for cancellation", c.P.Pos(rf.Pos()))
 	}
+}
+
+// attributeToOwners re-keys call sites found in unknown helpers to the known
+// functions that (transitively, through unknown helpers only) call them; a
+// site reached from several call sites of its owner counts once per call site.
+func attributeToOwners(p *Program, sites map[string][]ssa.Instruction) map[string][]ssa.Instruction {
+	out := map[string][]ssa.Instruction{}
+	var owners func(fn *ssa.Function, depth int) []*ssa.Function
+	owners = func(fn *ssa.Function, depth int) []*ssa.Function {
+		if fn == nil || depth > 5 || !unknownHelper(fn, 0) {
+			return []*ssa.Function{fn}
+		}
+		var res []*ssa.Function
+		for _, g := range p.RepoFuncs() {
+			for _, b := range g.Blocks {
+				for _, in := range b.Instrs {
+					if ci, ok := in.(ssa.CallInstruction); ok && ci.Common().StaticCallee() == fn {
+						res = append(res, owners(g, depth+1)...)
+					}
+				}
+			}
+		}
+		if len(res) == 0 {
+			return []*ssa.Function{fn}
+		}
+		return res
+	}
+	for name, ins := range sites {
+		fn := p.Func(name)
+		for _, o := range owners(fn, 0) {
+			key := name
+			if o != nil {
+				key = QualName(o)
+			}
+			out[key] = append(out[key], ins...)
+		}
+	}
+	return out
 }
